@@ -21,7 +21,9 @@ Definition nontrivial_case (inp : list Z) : bool := nontrivial_numa (decode_ncas
 Definition finding_sig (inp obs : list Z) : Z :=
   let c := decode_ncase inp in
   let code := prop_case inp obs in
-  if (code =? 1) && negb (c_topo_first c) then 1
+  (* a known shape only counts when the implementation does exactly what the faithful model does *)
+  if negb (Spec.eq_listZ (run_case inp) obs) then 0
+  else if (code =? 1) && negb (c_topo_first c) then 1
   else if (code =? 7) && negb (rsv_no_excl (c_descs c)) then 3
   else if ((code =? 7) || (code =? 8)) && negb (policies_agree (c_descs c)) then 2
   else 0.
